@@ -238,7 +238,7 @@ func (x *instr) accesses(stmt ast.Stmt) []string {
 			if sel != nil && sel.Kind() == types.FieldVal && simple(v.X) {
 				recv := sel.Recv()
 				if p, ok := recv.(*types.Pointer); ok {
-					if n, ok := p.Elem().(*types.Named); ok && n.Obj().Pkg() == x.pkg.Types && !isProtoMessage(recv) {
+					if n, ok := p.Elem().(*types.Named); ok && n.Obj().Pkg() == x.pkg.Types {
 						if _, isStruct := n.Underlying().(*types.Struct); isStruct && !isAnySync(sel.Type()) {
 							add(fmt.Sprintf("simrt.AccF(%q, func() unsafe.Pointer { return unsafe.Pointer(&%s) }, %v)", x.site(v.Pos()), x.text(v), writes[v]))
 						}
